@@ -369,6 +369,87 @@ func init() {
 		ex.callValue(args[0], nil, site)
 		return nil
 	})
+	reg(rt+"FSDir", func(ex *Exec, fn *ssa.Function, args []Value, site string) Value {
+		fs := ex.fsys()
+		if len(fs.dirs) == 0 {
+			fs.dirs = append(fs.dirs, &fsEnt{path: mkStr("/base"), mode: 0o777})
+		}
+		if args[0].(bool) {
+			fs.dirs = append(fs.dirs, &fsEnt{path: mkStr("/base/store"), mode: 0o755})
+		}
+		return "/base/store"
+	})
+	reg(rt+"FSFaults", func(ex *Exec, fn *ssa.Function, args []Value, site string) Value {
+		ex.fsys().faults = args[0].(bool)
+		return nil
+	})
+	reg(rt+"FSConfined", func(ex *Exec, fn *ssa.Function, args []Value, site string) Value {
+		fs := ex.fsys()
+		dir := strTerm(args[0])
+		ok := []*Term{}
+		for _, f := range fs.files {
+			pre := mkConcat(dir, mkStr("/"))
+			pa, da := catAtoms(f.path), catAtoms(pre)
+			inside := tFalse
+			if len(pa) > len(da) {
+				same := true
+				for i := range da {
+					if da[i] != pa[i] {
+						same = false
+					}
+				}
+				if same {
+					name := mkConcat(pa[len(da):]...)
+					inside = mkAnd(slashFree(name), mkNot(mkEq(name, mkStr(".."))), mkNot(mkEq(name, mkStr("."))), mkNot(mkEq(name, mkStr(""))))
+				}
+			}
+			if inside == tFalse {
+				name := ex.freshVar("confname", SStr, "string", false)
+				inside = mkAnd(mkEq(f.path, mkConcat(pre, name)), mkNot(mkContains(name, mkStr("/"))), mkNot(mkEq(name, mkStr(".."))), mkNot(mkEq(name, mkStr("."))), mkNot(mkEq(name, mkStr(""))))
+			}
+			ok = append(ok, inside)
+		}
+		for _, d := range fs.dirs {
+			ok = append(ok, mkOr(mkEq(d.path, dir), mkEq(d.path, mkStr("/base"))))
+		}
+		return lower(mkAnd(ok...))
+	})
+	reg(rt+"FSEntries", func(ex *Exec, fn *ssa.Function, args []Value, site string) Value {
+		return int64(len(ex.fsys().files))
+	})
+	reg(rt+"FSCorrupt", func(ex *Exec, fn *ssa.Function, args []Value, site string) Value {
+		fs := ex.fsys()
+		how := args[1].(int64)
+		for _, f := range fs.files {
+			switch how {
+			case 0:
+				f.content = &blobVal{torn: mkInt(0), n: mkInt(0)}
+			case 1:
+				f.content = &blobVal{junk: true, n: mkInt(7)}
+			case 2:
+				f.mode = 0
+			}
+		}
+		return nil
+	})
+	reg(rt+"CrashDuring", func(ex *Exec, fn *ssa.Function, args []Value, site string) (res Value) {
+		fs := ex.fsys()
+		fs.armed = true
+		depth := ex.depth
+		defer func() {
+			fs.armed = false
+			if r := recover(); r != nil {
+				if _, ok := r.(crashEvent); ok {
+					ex.depth = depth
+					res = true
+					return
+				}
+				panic(r)
+			}
+		}()
+		ex.callValue(args[0], nil, site)
+		return false
+	})
 	reg(rt+"Freeze", func(ex *Exec, fn *ssa.Function, args []Value, site string) Value {
 		ex.mon.freeze(ex, args[0].(string), sliceVals(args[1]))
 		return nil
@@ -571,6 +652,13 @@ func init() {
 		for e.T != nil {
 			if ex.eqTerm(e, target, errorType) == tTrue {
 				return true
+			}
+			if ta, ok := target.V.(*errAbs); ok {
+				if ea, ok := e.V.(*errAbs); ok && ea.kind != "" {
+					if ts, _ := ta.msg.(string); (ea.kind == "notexist" && strings.HasSuffix(ts, "ErrNotExist")) || (ea.kind == "permission" && strings.HasSuffix(ts, "ErrPermission")) || (ea.kind == "exist" && strings.HasSuffix(ts, "ErrExist")) {
+						return true
+					}
+				}
 			}
 			ea, ok := e.V.(*errAbs)
 			if !ok || ea.wraps == nil {
